@@ -26,7 +26,7 @@ def run_case(seed):
     n=rnd.randint(1,5); stale=rnd.random()<0.3
     scripts=[]
     for i in range(n):
-        s=[rnd.choice(["echo:busy: processing","X:1.00 Y:2.00 Z:3.00 E:0.00 Count X:0 Y:0 Z:0","T:20.0 /0.0 B:21.0 /0.0","// note"]) for _ in range(rnd.randint(0,2))]
+        s=[rnd.choice(["echo:busy: processing","X:1.00 Y:2.00 Z:3.00 E:0.00 Count X:0 Y:0 Z:0","T:20.0 /0.0 B:21.0 /0.0","// note","echo:lookahead buffer full","[MSG:Token rejected]"]) for _ in range(rnd.randint(0,2))]
         s.append(rnd.choice(["ok","ok","ok","ok T:21.5 /0.0","error: checksum","Alarm: hard limit","!! fatal"]))
         scripts.append(s)
     with mock.patch("serial.Serial", StepSerial), mock.patch("gscrib.printrun.device.Device._disable_ttyhup"):
